@@ -425,25 +425,33 @@ def upsert (ps : List PropRec) (p : PropRec) : List PropRec :=
   if ps.any (fun q => sameKey q p.ent p.ty p.name) then ps.map (fun q => if sameKey q p.ent p.ty p.name then p else q)
   else ps ++ [p]
 
+/-- cc:379-395, 429-457: entity word, type word (both compared in lower case), quoted name; `none` when the
+    line is not a declaration the reader acts on (unknown type or entity, empty name) -/
+def parseDecl (line : Str) : Option (Ent × VT × Str) :=
+  let w1 := extractWord (IStream.ofStr line)
+  let w2 := extractWord w1.2
+  let name := extractQuoted line
+  if name.isEmpty then none       -- a property without a name is ignored (A3)
+  else match vtOfName (lower (w2.1.getD [])), entOfName (lower (w1.1.getD [])) with
+    | some vt, some k => some (k, vt, name)
+    | _, _ => none
+
+/-- the block just read becomes the content of the property `(k, vt, name)` -/
+def storeProp (st : RS) (k : Ent) (vt : VT) (name : Str) (vals : List Val) (is' : IStream) : RS :=
+  { st with is := is',
+            verts := if isPosKey k vt name then List.zipWith posOfVal vals st.verts else st.verts,
+            props := upsert st.props ⟨k, vt, name, vals⟩ }
+
 /-- `readProperty` (cc:373-437) + `generateGenericProperty` -/
 def readProperty (lim : Nat) (st : RS) : RS :=
   let r := getCleanLine st.is []
-  let line := r.2.1
   let st := { st with is := r.2.2 }
-  if line.isEmpty then st
-  else
-    let w1 := extractWord (IStream.ofStr line)
-    let w2 := extractWord w1.2
-    let name := extractQuoted line
-    if name.isEmpty then st       -- a property without a name is ignored (A3)
-    else match vtOfName (lower (w2.1.getD [])), entOfName (lower (w1.1.getD [])) with
-    | some vt, some k =>
-      match readVals lim vt (oldVals st k vt name) st.is [] with
-      | .error n => { st with err := some (.alloc n) }
-      | .ok (vals, is') =>
-        let verts := if isPosKey k vt name then List.zipWith posOfVal vals st.verts else st.verts
-        { st with is := is', verts := verts, props := upsert st.props ⟨k, vt, name, vals⟩ }
-    | _, _ => st
+  match (if r.2.1.isEmpty then none else parseDecl r.2.1) with
+  | none => st
+  | some (k, vt, name) =>
+    match readVals lim vt (oldVals st k vt name) st.is [] with
+    | .error n => { st with err := some (.alloc n) }
+    | .ok (vals, is') => storeProp st k vt name vals is'
 
 /-- cc:333-352 -/
 def readProps (lim : Nat) : Nat → RS → RS
